@@ -29,6 +29,21 @@ of both sources are scanned; watchers installed by bind/rx objects for themselve
 Inside an `update` context the overridden parameter must keep the plain value while the sources
 move; the watcher scan is skipped inside the context (the link is only suspended).
 Async references are left to C10.
+
+Skip family (references whose resolution can yield NO value): kinds
+    BS  param.bind(f, s.param.v), f raises param.Skip while v < 5, else v + 100
+    DS  @param.depends(s.param.v) function raising param.Skip while v < 5, else 2 v
+    MS  the depends METHOD s.shout of the source (raises param.Skip while v < 5, else 3 v)
+    BU  bind function RETURNING param.parameterized.Undefined while v < 5, else v + 100
+    BK  bind function RETURNING the class param.Skip while v < 5 (links made in the constructor only:
+        on the assignment route the statement's "resolved value" would be the class itself)
+    LS  [BS reference, 3]  (nested_refs)
+The sources start at v = 1, so the FIRST resolution of such a link (constructor or later
+assignment / relink) yields no value; the extra operations z1, z2 move a source back to a value
+for which the reference skips.  Oracle: while the reference yields no value the parameter keeps
+the value it held (default / last mirrored value / value held when it was relinked); as soon as
+the source moves to a value for which the reference resolves the parameter mirrors it; override
+and relink end the link as for every other kind.
 """
 import itertools
 import logging
@@ -48,6 +63,11 @@ warnings.simplefilter('ignore')
 param.parameterized.get_logger().setLevel(logging.CRITICAL)
 class S(param.Parameterized):
     v = param.Integer(1)
+    @param.depends('v')
+    def shout(self):
+        if self.v < 5:
+            raise param.Skip()
+        return 3 * self.v
 class TN(param.Parameterized):
     p1 = param.Parameter(None, allow_refs=True, nested_refs=True)
     p2 = param.Parameter(None, allow_refs=True, nested_refs=True)
@@ -56,6 +76,14 @@ class TF(param.Parameterized):
     p2 = param.Parameter(None, allow_refs=True)
 def add100(v):
     return v + 100
+def add100_raise_skip(v):
+    if v < 5:
+        raise param.Skip()
+    return v + 100
+def add100_return_undefined(v):
+    return param.parameterized.Undefined if v < 5 else v + 100
+def add100_return_skip(v):
+    return param.Skip if v < 5 else v + 100
 def make_ref(kind, s, o):
     """reference of `kind` over source s (o: the other source, used by kind X only)"""
     if kind == 'P':
@@ -79,6 +107,23 @@ def make_ref(kind, s, o):
         return [make_ref('D', s, o), make_ref('R', s, o)]
     if kind == 'X':
         return [s.param.v, o.param.v]
+    if kind == 'BS':
+        return param.bind(add100_raise_skip, s.param.v)
+    if kind == 'BU':
+        return param.bind(add100_return_undefined, s.param.v)
+    if kind == 'BK':
+        return param.bind(add100_return_skip, s.param.v)
+    if kind == 'DS':
+        @param.depends(s.param.v)
+        def double_or_skip(v):
+            if v < 5:
+                raise param.Skip()
+            return 2 * v
+        return double_or_skip
+    if kind == 'MS':
+        return s.shout
+    if kind == 'LS':
+        return [make_ref('BS', s, o), 3]
     raise ValueError(kind)
 def t_watchers(t, s):
     """watchers in the tables of source s whose callable belongs to t"""
@@ -91,7 +136,10 @@ def t_watchers(t, s):
     return n
 '''
 
-CONTAINERS = ('L', 'K', 'U', 'N', 'X')
+CONTAINERS = ('L', 'K', 'U', 'N', 'X', 'LS')
+SKIPPING = ('BS', 'DS', 'MS', 'BU', 'BK', 'LS')      # kinds that yield no value while the source is < 5
+SKIP = object()
+ZOPS = ['z1', 'z2']                                   # move a source to a value for which these kinds skip
 K1 = ['P', 'B', 'D', 'R', 'L', 'K', 'U', 'N', 'X']
 K2 = [None, ('P', 2), ('B', 1), ('L', 2), ('R', 2)]
 MODES = ['ctor', 'later', 'mixed']
@@ -101,8 +149,21 @@ OPS = ['u1', 'u2', 'rl1', 'rl2', 'ov1', 'ov2', 'cx1', 'cx2']
 
 
 def fval(kind, v, vo):
+    if kind in SKIPPING:
+        if v < 5:
+            return SKIP
+        return {'BS': v + 100, 'BU': v + 100, 'BK': v + 100, 'DS': 2 * v, 'MS': 3 * v, 'LS': [v + 100, 3]}[kind]
     return {'P': v, 'B': v + 100, 'D': 2 * v, 'R': v + 10, 'L': [v, 3], 'K': {'k': v},
             'U': (v, v + 100), 'N': [2 * v, v + 10], 'X': [v, vo]}[kind]
+
+
+def has_skip(cfg):
+    k1, k2, mode, a1, a2, nested = cfg
+    return any(k in SKIPPING for k in (k1, k2[0] if k2 else None, a1[0], a2[0]))
+
+
+def ops_of(cfg):
+    return OPS + ZOPS if has_skip(cfg) else OPS
 
 
 def srcs_of(link):
@@ -130,6 +191,7 @@ class Script:
         self.v = {1: 1, 2: 1}
         self.link = {1: None, 2: None}       # (kind, src, made) ; made in ctor/assign/restore
         self.plain = {1: None, 2: None}
+        self.cur = {1: None, 2: None}        # value each parameter is expected to hold right now
         self.fresh = 10
         self.nref = 0
         self.lines = ["s1 = S(); s2 = S()"]
@@ -151,10 +213,16 @@ class Script:
             if r2:
                 self.lines.append("t.p2 = %s" % r2)
             made = ('ctor', 'assign')
-        self.link[1] = (k1, 1, made[0])
+        self.link[1] = self.mklink(k1, 1, made[0])
         if k2:
-            self.link[2] = (k2[0], k2[1], made[1])
+            self.link[2] = self.mklink(k2[0], k2[1], made[1])
         self.steps = []          # list of (first line index, last line index (excl), checks)
+
+    def mklink(self, kind, j, made):
+        """(kind, source, how the link was made[, 'skip-first' when its first resolution yields no value])"""
+        if kind in SKIPPING:
+            return (kind, j, made, 'skip-first' if fval(kind, self.v[j], self.v[3 - j]) is SKIP else 'resolves-first')
+        return (kind, j, made)
 
     def ref(self, kind, j):
         self.nref += 1
@@ -164,12 +232,17 @@ class Script:
 
     def expected(self):
         out = {}
+        self.holds = set()      # parameters whose link yields no value right now
         for i in (1, 2):
             lk = self.link[i]
             if lk is None:
                 out[i] = self.plain[i]
             else:
                 out[i] = fval(lk[0], self.v[lk[1]], self.v[3 - lk[1]])
+                if out[i] is SKIP:          # no value right now: the parameter keeps what it held
+                    out[i] = self.cur[i]
+                    self.holds.add(i)
+        self.cur = dict(out)
         return out
 
     def used_sources(self):
@@ -179,7 +252,7 @@ class Script:
         """appends a CHECK pseudo-line: (tag, expected p1, expected p2, sources allowed to hold t-watchers)"""
         e = self.expected()
         self.lines.append(('CHECK', tag, e[1], e[2], sorted(self.used_sources()) if leak else None,
-                           dict(self.link)))
+                           dict(self.link), tuple(sorted(self.holds))))
 
     def op(self, name):
         self.fresh += 2
@@ -193,12 +266,16 @@ class Script:
             kind, j = self.cfg[3] if i == 1 else self.cfg[4]
             r = self.ref(kind, j)
             self.lines.append("t.p%d = %s" % (i, r))
-            self.link[i] = (kind, j, 'assign')
+            self.link[i] = self.mklink(kind, j, 'assign')
             self.check(name)
         elif name[:2] == 'ov':
             self.lines.append("t.p%d = %d" % (i, f1))
             self.link[i] = None
             self.plain[i] = f1
+            self.check(name)
+        elif name[0] == 'z':
+            self.v[i] = -f1
+            self.lines.append("s%d.v = %d" % (i, -f1))
             self.check(name)
         elif name[:2] == 'cx':
             saved = (self.link[i], self.plain[i])
@@ -213,7 +290,7 @@ class Script:
             self.lines.append("ctx.__exit__(None, None, None)")
             self.link[i], self.plain[i] = saved
             if self.link[i] is not None:
-                self.link[i] = (self.link[i][0], self.link[i][1], 'restore')
+                self.link[i] = (self.link[i][0], self.link[i][1], 'restore') + tuple(self.link[i][3:])
             self.check(name + ':exit')
         else:
             raise ValueError(name)
@@ -256,7 +333,7 @@ def run_case(cfg, hist):
     leaked = {1: False, 2: False}       # until the parameter is assigned again (same for a leaked watcher)
     for idx, ln in enumerate(sc.lines):
         if isinstance(ln, tuple):
-            _c, tag, e1, e2, allowed, links = ln
+            _c, tag, e1, e2, allowed, links, holds = ln
             t = env['t']
             if tag[:2] in ('rl', 'ov') or tag.endswith(':enter') or tag.endswith(':exit'):
                 diverged[int(tag[2])] = False
@@ -266,7 +343,8 @@ def run_case(cfg, hist):
                 if not (got == e and type(got) is type(e)):
                     if not diverged[i]:
                         viols.append(dict(cfg=cfg, hist=hist, upto=idx, tag=tag, kind='mismatch', param=i,
-                                          got=repr(got), want=repr(e), link=links[i], links=links))
+                                          got=repr(got), want=repr(e), link=links[i], links=links,
+                                          hold=i in holds))
                     diverged[i] = True
             if allowed is not None:
                 for j in (1, 2):
@@ -296,7 +374,7 @@ def run_case(cfg, hist):
 def run_chunk(tasks):
     res = []
     for cfg, prefix, k in tasks:
-        for tail in itertools.product(OPS, repeat=k - len(prefix)):
+        for tail in itertools.product(ops_of(cfg), repeat=k - len(prefix)):
             h = tuple(prefix) + tail
             nval, nleak, viols = run_case(cfg, h)
             res.append((cfg, h, nval, nleak, viols))
@@ -319,14 +397,16 @@ def replay_of(v, clause, witness):
     src += PRELUDE
     for idx, ln in enumerate(sc.lines[:v['upto'] + 1]):
         if isinstance(ln, tuple):
-            _c, tag, e1, e2, allowed, _links = ln
+            _c, tag, e1, e2, allowed, _links, _holds = ln
             if idx == v['upto']:
                 src += "print('after %s: p1 =', repr(t.p1), ' p2 =', repr(t.p2), ' watchers of t on s1/s2:', t_watchers(t, s1), t_watchers(t, s2))\n" % tag
                 if v['kind'] == 'mismatch':
                     e = e1 if v['param'] == 1 else e2
                     src += "got = t.p%d\n" % v['param']
                     src += "if not (got == %r and type(got) is type(%r)):\n" % (e, e)
-                    msg = 'REPRODUCED: p%d holds %%r, the reference resolves to %r' % (v['param'], e)
+                    msg = ('REPRODUCED: p%d holds %%r, the reference yields no value and p%d held %r' % (v['param'], v['param'], e)
+                           if v.get('hold') else
+                           'REPRODUCED: p%d holds %%r, the reference resolves to %r' % (v['param'], e))
                     src += "    print(%r %% (got,))\n" % msg
                     src += "    sys.exit(1)\n"
                 elif v['kind'] == 'leak':
@@ -380,6 +460,32 @@ def configs():
     return out
 
 
+SK1 = ['BS', 'DS', 'MS', 'BU', 'BK', 'LS', 'P']
+SK2 = [None, ('P', 2), ('BS', 2), ('BS', 1)]
+SA1 = [('BS', 2), ('P', 2)]
+SA2 = [('P', 1), ('BS', 1)]
+
+
+def skip_configs(tier):
+    """configurations of the skip family: at least one reference kind whose resolution can yield no
+    value among the initial links / relink targets"""
+    out = []
+    for k1 in SK1:
+        for k2 in (SK2 if tier == 'thorough' else SK2[:3]):
+            for mode in MODES:
+                if k1 == 'BK' and mode == 'later':
+                    continue            # a function returning the class Skip: constructor links only
+                for a1 in SA1:
+                    for a2 in (SA2 if tier == 'thorough' else SA2[:1]):
+                        for nested in ((1, 0) if tier == 'thorough' else (1,)):
+                            if not nested and 'LS' in (k1, a1[0], a2[0]):
+                                continue
+                            c = (k1, k2, mode, a1, a2, nested)
+                            if has_skip(c):
+                                out.append(c)
+    return out
+
+
 def is_core(cfg):
     k1, k2, mode, a1, a2, nested = cfg
     return nested == 1 and a2 == ('P', 1) and a1 in (('P', 2), ('L', 1)) and k2 in (None, ('P', 2), ('L', 2))
@@ -390,7 +496,7 @@ def vclass(v):
     Container kinds (L, K, U, N, X) form one class, scalar kinds (P, B, D, R) another; a source
     update inside an update(...) context counts as a source update."""
     tag = v['tag']
-    if tag[:1] == 'u' or tag.endswith(':inside'):
+    if tag[:1] in ('u', 'z') or tag.endswith(':inside'):
         at = 'source-update'
     elif tag.endswith(':enter'):
         at = 'ctx-enter'
@@ -400,9 +506,13 @@ def vclass(v):
         at = tag.rstrip('12')
     if v['kind'] == 'mismatch':
         clause = 'C08/mirror/value == resolve(reference)'
+        if v.get('hold'):
+            clause = 'C08/skip/reference yields no value: the parameter keeps the value it held'
         lk = v['link']
         if lk is None:
             desc = 'link=none(plain value expected)'
+        elif lk[0] in SKIPPING:
+            desc = 'link=%s made=%s' % (lk[3], lk[2])
         else:
             desc = 'link=%s made=%s' % ('container' if lk[0] in CONTAINERS else 'scalar', lk[2])
         return (clause, desc, 'at=' + at)
@@ -421,11 +531,21 @@ def _run(tier, seed):
               "source update, rl1,rl2 relink, ov1,ov2 override with a plain value, cx1,cx2 update(...) "
               "context with source updates inside}; after every step both parameters are compared with the "
               "shadow model and the watcher tables of both sources are scanned for watchers of the target. "
+              "Skip family: p1 in {bind / depends function / depends method raising param.Skip, bind returning "
+              "Undefined, bind returning Skip (constructor links), [skipping bind, 3], P} while the source is < 5 "
+              "(so the FIRST resolution of the link yields no value) x p2 {none, P@s2, skipping bind@s2, "
+              "skipping bind@s1} x link mode x relink targets {skipping bind, P}; histories additionally over "
+              "{z1, z2: move a source to a value for which the reference skips}. "
               "A case = (configuration, history of maximal length); shorter histories are its prefixes"),
         bound=("quick: all histories of length <= 2 over 8 operations on the 162 core configurations and a seeded "
-               "1/3 of the other 744 + a seeded 1/8 sample of the length-3 histories on the core" if tier == 'quick' else
+               "1/3 of the other 744 + a seeded 1/8 sample of the length-3 histories on the core; skip family: all "
+               "histories of length <= 2 over 10 operations on %d configurations" % len(skip_configs('quick'))
+               if tier == 'quick' else
                "all histories of length <= 3 over 8 operations on all 906 configurations; length <= 4 on 48 core "
-               "configurations (k1 in {P,B,R,L,K,X}, k2 in {none, L@s2}, mode ctor/later, a1 in {P@s2, L@s1}, a2=P@s1)"))
+               "configurations (k1 in {P,B,R,L,K,X}, k2 in {none, L@s2}, mode ctor/later, a1 in {P@s2, L@s1}, a2=P@s1); "
+               "skip family: all histories of length <= 3 over 10 operations on the %d configurations of the quick "
+               "tier, length <= 2 on the other %d (second relink target of p2, shared-source p2, nested_refs=False)"
+               % (len(skip_configs('quick')), len(skip_configs('thorough')) - len(skip_configs('quick')))))
     warnings.simplefilter('ignore')
     cfgs = configs()
     rnd = random.Random(2000 + seed)
@@ -446,6 +566,12 @@ def _run(tier, seed):
                 for o1 in OPS:
                     for o2 in OPS:
                         tasks.append((c, (o1, o2), 4))
+    # skip family: references whose first resolution yields no value (all histories of the stated length)
+    scfgs = skip_configs(tier)
+    score = set(skip_configs('quick'))
+    for c in scfgs:
+        for op in ops_of(c):
+            tasks.append((c, (op,), 3 if (tier == 'thorough' and c in score) else 2))
     rnd.shuffle(tasks)
     nchunk = 512
     chunks = [tasks[i::nchunk] for i in range(nchunk)]
@@ -457,6 +583,8 @@ def _run(tier, seed):
             for cfg, h, nval, nleak, viols in fu.result():
                 B.case(key=cfg_str(cfg) + ' hist=' + ','.join(h))
                 B.checked('C08/mirror/value == resolve(reference)', nval)
+                if has_skip(cfg):
+                    B.checked('C08/skip/reference yields no value: the parameter keeps the value it held', nval)
                 B.checked('C08/override-relink/old sources keep no watcher of the target', nleak)
                 if B.evaluations % 20011 == 1:
                     samples.append((cfg, h))
@@ -467,8 +595,9 @@ def _run(tier, seed):
 
     def cfg_rank(cfg):
         k1, k2, mode, a1, a2, nested = cfg
-        return (K2.index(k2) if nested else 9, K1.index(k1), MODES.index(mode), A1.index(a1) if a1 in A1 else 9,
-                A2.index(a2), 1 - nested)
+        k1s, k2s, a1s, a2s = K1 + SK1, K2 + SK2, A1 + SA1, A2 + SA2
+        return (k2s.index(k2) if nested else 9, k1s.index(k1), MODES.index(mode), a1s.index(a1), a2s.index(a2),
+                1 - nested)
     reports = []
     for key in groups:
         best = None
@@ -481,7 +610,7 @@ def _run(tier, seed):
                     break
             if v['tag'] == 'init':
                 nsteps = 0
-            rk = (nsteps, cfg_rank(v['cfg']), [OPS.index(o) for o in v['hist'][:nsteps]])
+            rk = (nsteps, cfg_rank(v['cfg']), [(OPS + ZOPS).index(o) for o in v['hist'][:nsteps]])
             if best is None or rk < best[0]:
                 best = (rk, v, nsteps)
         _rk, rep, nsteps = best
